@@ -10,7 +10,44 @@ if VERIF not in sys.path:
     sys.path.insert(0, VERIF)
 
 
+def hash_seed_children(rep, mod, pid, tier):
+    """Set/dict iteration order over labels depends on PYTHONHASHSEED: the same check (quick size) is run again in
+    child processes under other seeds; a violation found there is replayed there and reported here."""
+    import subprocess
+    import tempfile
+
+    seeds = getattr(mod, "HASH_SEEDS", {}).get(tier, ())
+    for hs in seeds:
+        tmp = tempfile.mkdtemp(prefix="verif_hs_")
+        env = dict(os.environ, PYTHONHASHSEED=str(hs), VERIF_CHILD="1", VERIF_EVIDENCE_DIR=tmp)
+        cmd = [sys.executable, "-m", "checks.run", pid, "--tier", "quick"] + (["--only", mod.HASH_ONLY] if getattr(mod, "HASH_ONLY", None) else [])
+        try:
+            r = subprocess.run(cmd, cwd=VERIF, env=env, capture_output=True, text=True, timeout=3000)
+            out, rc = r.stdout, r.returncode
+        except subprocess.TimeoutExpired:
+            out, rc = "", 3
+        finally:
+            import shutil
+
+            shutil.rmtree(tmp, ignore_errors=True)
+        lines = out.splitlines()
+        summary = next((l for l in reversed(lines) if l.startswith("[" + pid)), "(no summary)")
+        rep.note(f"PYTHONHASHSEED={hs}: {summary}")
+        rep.count("hash_seed_runs")
+        for i, l in enumerate(lines):
+            if l.startswith("VIOLATION"):
+                rep.child_violations.append((l, lines[i + 1] if i + 1 < len(lines) else ""))
+            elif l.startswith("HARNESS-ERROR"):
+                rep.error(f"child under PYTHONHASHSEED={hs}: {l[:300]}")
+        if rc not in (0, 1):
+            rep.error(f"child under PYTHONHASHSEED={hs} exited {rc}")
+
+
 def main():
+    if "PYTHONHASHSEED" not in os.environ:
+        # deterministic runs: the seed is part of the configuration (other seeds are explored explicitly)
+        os.execve(sys.executable, [sys.executable, "-m", "checks.run"] + sys.argv[1:],
+                  dict(os.environ, PYTHONHASHSEED=os.environ.get("VERIF_HASHSEED", "0")))
     ap = argparse.ArgumentParser()
     ap.add_argument("pid")
     ap.add_argument("--tier", default=os.environ.get("VERIF_TIER", "quick"))
@@ -24,8 +61,11 @@ def main():
     mod = importlib.import_module(f"checks.{args.pid.lower()}")
     rep = report.Report(args.pid.upper(), tier, seed, mod.LEVEL, getattr(mod, "TECHNIQUE", ""))
     rep.assumptions += env.stubs_in_use() if getattr(mod, "USES_STUBS", False) else []
+    rep.child_violations = []
     try:
         mod.run(rep, tier, seed, only=args.only)
+        if not os.environ.get("VERIF_CHILD") and args.only is None:
+            hash_seed_children(rep, mod, args.pid.upper(), tier)
     except Exception as e:  # noqa: BLE001
         import traceback
 
